@@ -65,3 +65,19 @@ Example C15_tokens_example :
   tag_float ["f"%char] (render ts) =
   ["x";"1";" ";"=";" ";"1";".";"5";"e";"3";"f";"*";"(";"y";" ";"+";" ";".";"2";"5";"f";")";" ";"-";" ";"7";";"]%char.
 Proof. vm_compute. split; reflexivity. Qed.
+
+(* "the result does not depend on the precision beyond rounding" presupposes that the caller and the converted
+   source agree on the TYPE of what is passed by value (the weight cutoff): the parameter list of the kernel entry
+   point (kernel_iq.c, every `double` becoming the real type of the precision) and the ctypes declaration of
+   DllModel._load_dll, both read from the current text (Gen/C15_abi.v), agree argument by argument at every precision *)
+From SM Require Import C15.Abi Gen.C15_abi.
+Theorem C15_code_abi : abi_translated = true -> forall p, code_argtypes p = code_kernel_params p.
+Proof. intros Ht. try solve [vm_compute in Ht; discriminate Ht]. all: intros p; destruct p; reflexivity. Qed.
+Print Assumptions C15_code_abi.
+Theorem C15_code_cutoff_by_value : abi_translated = true -> forall p, In (KReal p) (code_kernel_params p) /\ forall q, In (KReal q) (code_argtypes p) -> q = p.
+Proof.
+  intros Ht. try solve [vm_compute in Ht; discriminate Ht].
+  all: intros p; rewrite (C15_code_abi Ht); split; [destruct p; vm_compute; tauto|].
+  all: intros q Hq; destruct p; vm_compute in Hq; repeat (destruct Hq as [Hq|Hq]; [try discriminate Hq; try (injection Hq as <-; reflexivity)|]); try contradiction.
+Qed.
+Print Assumptions C15_code_cutoff_by_value.
